@@ -65,6 +65,165 @@ def _fresh_instance_var(f):
     return None, None
 
 
+def _sequence_loops(body, loc):
+    import copy
+
+    V = "seq__v"
+    counter = [0]
+
+    def single_defs():
+        stores = {}
+        for st in body:
+            for n in ast.walk(st):
+                if isinstance(n, ast.Name) and isinstance(n.ctx, ast.Store):
+                    stores[n.id] = stores.get(n.id, 0) + 1
+        return {st.targets[0].id: st.value for st in body if isinstance(st, ast.Assign) and len(st.targets) == 1
+                and isinstance(st.targets[0], ast.Name) and stores.get(st.targets[0].id) == 1}
+
+    defs = single_defs()
+
+    def subst(e, var, by):
+        class R(ast.NodeTransformer):
+            def visit_Name(self, n):
+                return copy.deepcopy(by) if n.id == var and isinstance(n.ctx, ast.Load) else n
+        return R().visit(copy.deepcopy(e))
+
+    def simplify(e):
+        class R(ast.NodeTransformer):
+            def visit_Call(self, n):
+                self.generic_visit(n)
+                # f(*(a, b)) -> f(a, b)
+                if len(n.args) == 1 and isinstance(n.args[0], ast.Starred) and isinstance(n.args[0].value, ast.Tuple) and not n.keywords:
+                    n.args = list(n.args[0].value.elts)
+                return n
+
+            def visit_Subscript(self, n):
+                self.generic_visit(n)
+                if isinstance(n.value, ast.Tuple) and isinstance(n.slice, ast.Constant) and isinstance(n.slice.value, int) \
+                        and -len(n.value.elts) <= n.slice.value < len(n.value.elts):
+                    return n.value.elts[n.slice.value]
+                return n
+        return R().visit(e)
+
+    BASES = ("values", "items", "keys")
+
+    def seq_of(e, depth=0):
+        """dict(base=text of the base iterable, node=its AST, elt=element AST over Name V, width=AST or None) or None"""
+        if depth > 8:
+            return None
+        if isinstance(e, ast.Call) and dotted(e.func) in ("list", "tuple", "iter") and len(e.args) == 1 and not e.keywords:
+            return seq_of(e.args[0], depth + 1)
+        if isinstance(e, ast.Name) and e.id in defs:
+            inner = seq_of(defs[e.id], depth + 1)
+            if inner is not None and (inner["base"] != e.id):
+                return inner
+        if isinstance(e, (ast.ListComp, ast.GeneratorExp)) and len(e.generators) == 1 and not e.generators[0].ifs:
+            g = e.generators[0]
+            src = seq_of(g.iter, depth + 1)
+            if src is None:
+                return None
+            bind = copy.deepcopy(src["elt"])
+            if isinstance(g.target, ast.Name):
+                elt = subst(e.elt, g.target.id, bind)
+            elif isinstance(g.target, ast.Tuple) and all(isinstance(t, ast.Name) for t in g.target.elts):
+                elt = copy.deepcopy(e.elt)
+                for i, t in enumerate(g.target.elts):
+                    elt = subst(elt, t.id, ast.Subscript(value=copy.deepcopy(bind), slice=ast.Constant(value=i), ctx=ast.Load()))
+            else:
+                return None
+            return dict(base=src["base"], node=src["node"], elt=simplify(elt), width=src["width"])
+        if isinstance(e, ast.Call) and dotted(e.func) == "zip" and len(e.args) >= 2 and not e.keywords:
+            parts = [seq_of(a, depth + 1) for a in e.args]
+            if any(p_ is None for p_ in parts) or len({p_["base"] for p_ in parts}) != 1:
+                return None
+            ws = [p_["width"] for p_ in parts if p_["width"] is not None]
+            if len({unparse(w) for w in ws}) > 1:
+                return None
+            return dict(base=parts[0]["base"], node=parts[0]["node"], elt=ast.Tuple(elts=[p_["elt"] for p_ in parts], ctx=ast.Load()),
+                        width=ws[0] if ws else None)
+        if isinstance(e, ast.Call) and dotted(e.func) in ("pairwise", "itertools.pairwise") and len(e.args) == 1 and isinstance(e.args[0], ast.Call) \
+                and dotted(e.args[0].func) in ("accumulate", "itertools.accumulate") and len(e.args[0].args) == 1 \
+                and [(k.arg, unparse(k.value)) for k in e.args[0].keywords] == [("initial", "0")]:
+            w = seq_of(e.args[0].args[0], depth + 1)
+            if w is None or w["width"] is not None:
+                return None
+            off = ast.Name(id="seq__off", ctx=ast.Load())
+            return dict(base=w["base"], node=w["node"], width=w["elt"],
+                        elt=ast.Tuple(elts=[off, ast.BinOp(left=copy.deepcopy(off), op=ast.Add(), right=ast.Name(id="seq__w", ctx=ast.Load()))], ctx=ast.Load()))
+        # a base iterable: a name that is not a derived sequence, or <expr>.values() / .items() / .keys() / an attribute
+        if isinstance(e, ast.Name) or (isinstance(e, ast.Call) and isinstance(e.func, ast.Attribute) and e.func.attr in BASES and not e.args) \
+                or isinstance(e, ast.Attribute):
+            txt = unparse(e)
+            if isinstance(e, ast.Name) and e.id in defs:
+                # `terms = list(self.terms.values())`: the same sequence as the call it was bound to
+                d = defs[e.id]
+                while isinstance(d, ast.Call) and dotted(d.func) in ("list", "tuple") and len(d.args) == 1:
+                    d = d.args[0]
+                if isinstance(d, ast.Call) and isinstance(d.func, ast.Attribute) and d.func.attr in BASES and not d.args:
+                    return dict(base=unparse(d), node=d, elt=ast.Name(id=V, ctx=ast.Load()), width=None)
+            return dict(base=txt, node=e, elt=ast.Name(id=V, ctx=ast.Load()), width=None)
+        return None
+
+    def as_loop(target, seq, inner, at):
+        counter[0] += 1
+        v = f"seq__v{counter[0]}"
+        offn, wn = f"seq__off{counter[0]}", f"seq__w{counter[0]}"
+        ren = {V: v, "seq__off": offn, "seq__w": wn}
+
+        def rn(e):
+            e = copy.deepcopy(e)
+            for n in ast.walk(e):
+                if isinstance(n, ast.Name) and n.id in ren:
+                    n.id = ren[n.id]
+            return e
+
+        pre, stmts = [], []
+        if seq["width"] is not None:
+            pre.append(loc(ast.Assign(targets=[ast.Name(id=offn, ctx=ast.Store())], value=ast.Constant(value=0)), at))
+            stmts.append(loc(ast.Assign(targets=[ast.Name(id=wn, ctx=ast.Store())], value=rn(seq["width"])), at))
+        def bind(tg, val):
+            """target = value, taken apart while both sides are tuples of the same length"""
+            if isinstance(tg, (ast.Tuple, ast.List)) and isinstance(val, ast.Tuple) and len(tg.elts) == len(val.elts) \
+                    and not any(isinstance(x, ast.Starred) for x in tg.elts):
+                for a, b in zip(tg.elts, val.elts):
+                    bind(a, b)
+                return
+            tg = copy.deepcopy(tg)
+            for n in ast.walk(tg):
+                if isinstance(n, (ast.Name, ast.Tuple, ast.List)):
+                    n.ctx = ast.Store()
+            stmts.append(loc(ast.Assign(targets=[tg], value=val), at))
+
+        bind(target, rn(seq["elt"]))
+        if seq["width"] is not None:
+            stmts.append(loc(ast.Assign(targets=[ast.Name(id=offn, ctx=ast.Store())],
+                                        value=ast.BinOp(left=ast.Name(id=offn, ctx=ast.Load()), op=ast.Add(), right=ast.Name(id=wn, ctx=ast.Load()))), at))
+        lp = loc(ast.For(target=ast.Name(id=v, ctx=ast.Store()), iter=copy.deepcopy(seq["node"]), body=stmts + inner, orelse=[]), at)
+        return pre + [lp]
+
+    out = []
+    for st in body:
+        if isinstance(st, ast.For) and not st.orelse:
+            sq = seq_of(st.iter)
+            if sq is not None and not (isinstance(sq["elt"], ast.Name) and sq["width"] is None):
+                out.extend(as_loop(st.target, sq, st.body, st))
+                continue
+        v = st.value if isinstance(st, ast.Expr) else None
+        if isinstance(v, ast.Call) and isinstance(v.func, ast.Attribute) and v.func.attr == "update" and len(v.args) == 1 and not v.keywords \
+                and not isinstance(v.args[0], (ast.DictComp, ast.Dict)):
+            sq = seq_of(v.args[0])
+            if sq is not None and isinstance(sq["elt"], ast.Tuple) and len(sq["elt"].elts) == 2:
+                counter[0] += 1
+                k, val = f"seq__k{counter[0]}", f"seq__x{counter[0]}"
+                store = ast.Assign(targets=[ast.Subscript(value=copy.deepcopy(v.func.value), slice=ast.Name(id=k, ctx=ast.Load()), ctx=ast.Store())],
+                                   value=ast.Name(id=val, ctx=ast.Load()))
+                tgt = ast.Tuple(elts=[ast.Name(id=k, ctx=ast.Store()), ast.Name(id=val, ctx=ast.Store())], ctx=ast.Store())
+                out.extend(as_loop(tgt, sq, [loc(store, st)], st))
+                continue
+        out.append(st)
+    return out
+
+
 def single_pass_view(body):
     """A view of a function body in which work that is spread over several passes over the same per-term sequence is brought
     into the producing loop (only used by the slice models; the interleaving of *independent* per-element work does not
@@ -87,10 +246,18 @@ def single_pass_view(body):
         return new
 
     def names_stored(stmts):
-        return {n.id for s_ in stmts for n in ast.walk(s_) if isinstance(n, ast.Name) and isinstance(n.ctx, ast.Store)}
+        out = set()
+        for s_ in stmts:
+            local = {id(n) for c in ast.walk(s_) if isinstance(c, ast.comprehension) for n in ast.walk(c.target) if isinstance(n, ast.Name)}
+            out |= {n.id for n in ast.walk(s_) if isinstance(n, ast.Name) and isinstance(n.ctx, ast.Store) and id(n) not in local}
+        return out
 
     def names_loaded(stmts):
-        return {n.id for s_ in stmts for n in ast.walk(s_) if isinstance(n, ast.Name) and isinstance(n.ctx, ast.Load)}
+        out = set()
+        for s_ in stmts:
+            local = {n.id for c in ast.walk(s_) if isinstance(c, ast.comprehension) for n in ast.walk(c.target) if isinstance(n, ast.Name)}
+            out |= {n.id for n in ast.walk(s_) if isinstance(n, ast.Name) and isinstance(n.ctx, ast.Load)} - local
+        return out
 
     def store_ctx(t):
         t = copy.deepcopy(t)
@@ -98,6 +265,10 @@ def single_pass_view(body):
             if isinstance(n, (ast.Name, ast.Tuple, ast.List, ast.Starred)):
                 n.ctx = ast.Store()
         return t
+
+    # 0. sequences derived element by element from one base iterable (comprehensions, zip, pairwise(accumulate(...)), starmap):
+    #    a loop / dict.update over such a sequence is a loop over the base with the element computed in the body
+    body = _sequence_loops(body, loc)
 
     # 1. X.update(<dict comprehension / generator of pairs>)
     out = []
@@ -126,6 +297,8 @@ def single_pass_view(body):
         comps = [c for x in stmts for c in ast.walk(x) if isinstance(c, (ast.ListComp, ast.GeneratorExp, ast.DictComp)) and len(c.generators) == 1
                  and isinstance(c.generators[0].iter, ast.Name) and c.generators[0].iter.id == L]
         return loops, comps
+
+    body = _sequence_loops(body, loc)   # the loops made in step 1 may range over derived sequences as well
 
     # 2. a list built by a comprehension and consumed element-wise later becomes an explicit producing loop
     out = []
@@ -267,6 +440,75 @@ def single_pass_view(body):
                     changed = True
                     break
             if changed:
+                break
+    # 5. two top-level loops over the same collection (same text, plain loop variables, no early exits) are one loop: per-element
+    #    work that does not depend on the other loop's later iterations
+    merged = True
+    while merged:
+        merged = False
+        loops = [x for x in body if isinstance(x, ast.For) and isinstance(x.target, ast.Name) and not x.orelse
+                 and not any(isinstance(n, (ast.Break, ast.Return, ast.Continue)) for n in ast.walk(x))]
+        stores_ = {}
+        for x in body:
+            for n in ast.walk(x):
+                if isinstance(n, ast.Name) and isinstance(n.ctx, ast.Store):
+                    stores_[n.id] = stores_.get(n.id, 0) + 1
+
+        def base_text(it):
+            """`terms` bound once to list(X.values()) ranges over X.values()"""
+            if isinstance(it, ast.Name) and stores_.get(it.id) == 1:
+                for x in body:
+                    if isinstance(x, ast.Assign) and len(x.targets) == 1 and isinstance(x.targets[0], ast.Name) and x.targets[0].id == it.id:
+                        d = x.value
+                        while isinstance(d, ast.Call) and dotted(d.func) in ("list", "tuple") and len(d.args) == 1:
+                            d = d.args[0]
+                        if isinstance(d, ast.Call) and isinstance(d.func, ast.Attribute) and d.func.attr in ("values", "items", "keys") and not d.args:
+                            return unparse(d)
+            return unparse(it)
+
+        for i, A in enumerate(loops):
+            for B in loops[i + 1:]:
+                if base_text(A.iter) != base_text(B.iter):
+                    continue
+                ia, ib = body.index(A), body.index(B)
+                between = body[ia + 1:ib]
+                a_st = names_stored([A]) | {n.func.value.id for n in ast.walk(A) if isinstance(n, ast.Call) and isinstance(n.func, ast.Attribute)
+                                            and isinstance(n.func.value, ast.Name) and n.func.attr in ("append", "extend", "insert", "update", "add")}
+                b_loads, b_stores = names_loaded(B.body), names_stored(B.body) | {B.target.id}
+                # B must not read a collection that A is still filling (it would see only a prefix)
+                if b_loads & {n for n in a_st if n not in names_stored(A.body)} - {A.target.id}:
+                    continue
+                hoist, stay, ok = [], [], True
+                for x in between:
+                    if not isinstance(x, (ast.Assign, ast.Expr)):
+                        ok = False
+                        break
+                    xs, xl = names_stored([x]), names_loaded([x])
+                    if xs & (b_loads | b_stores):
+                        # B needs it: it must be computable before A starts
+                        if isinstance(x, ast.Assign) and not (xl & a_st) and not (xs & (names_loaded([A]) | a_st)):
+                            hoist.append(x)
+                        else:
+                            ok = False
+                            break
+                    elif xl & b_stores:
+                        ok = False
+                        break
+                    else:
+                        stay.append(x)
+                if not ok:
+                    continue
+                ren = {B.target.id: A.target.id}
+                nb = copy.deepcopy(B.body)
+                for x in nb:
+                    for n in ast.walk(x):
+                        if isinstance(n, ast.Name) and n.id in ren:
+                            n.id = ren[n.id]
+                A.body = A.body + nb
+                body = body[:ia] + hoist + [A] + stay + body[ib + 1:]
+                merged = True
+                break
+            if merged:
                 break
     return body
 
